@@ -192,12 +192,14 @@ fn epilogue(m: usize, n: usize) -> Vec<Op> {
     v
 }
 
-fn alphabet(m: usize, n: usize) -> Vec<Op> {
+/// full alphabet: every unite with a != b (ordered), every find, classes of the whole universe,
+/// every clone; `reduced` keeps only the unites with a < b and drops `classes` (the epilogue has one)
+fn alphabet(m: usize, n: usize, reduced: bool) -> Vec<Op> {
     let mut v = vec![];
     for k in 0..m {
         for a in 0..n {
             for b in 0..n {
-                if a != b {
+                if a != b && (!reduced || a < b) {
                     v.push(Op::U(k, a, b));
                 }
             }
@@ -208,8 +210,10 @@ fn alphabet(m: usize, n: usize) -> Vec<Op> {
             v.push(Op::F(k, a));
         }
     }
-    for k in 0..m {
-        v.push(Op::C(k, (0..n).collect()));
+    if !reduced {
+        for k in 0..m {
+            v.push(Op::C(k, (0..n).collect()));
+        }
     }
     for i in 0..m {
         for j in 0..m {
@@ -223,8 +227,8 @@ fn alphabet(m: usize, n: usize) -> Vec<Op> {
 
 /// every history of exactly `len` operations over the alphabet, each followed by the epilogue,
 /// on both partition types
-fn exhaustive(ctx: &mut Ctx, m: usize, n: usize, len: usize) {
-    let alpha = alphabet(m, n);
+fn exhaustive(ctx: &mut Ctx, m: usize, n: usize, len: usize, reduced: bool, generic_too: bool) {
+    let alpha = alphabet(m, n, reduced);
     let epi = epilogue(m, n);
     let a = alpha.len();
     let mut idx = vec![0usize; len];
@@ -238,12 +242,14 @@ fn exhaustive(ctx: &mut Ctx, m: usize, n: usize, len: usize) {
         } else {
             ctx.skip();
         }
-        if ctx.peek_mine() {
-            let mut ops: Vec<Op> = idx.iter().map(|&i| alpha[i].clone()).collect();
-            ops.extend(epi.iter().cloned());
-            case::<Gen<Plain>>(ctx, "xgen", m, n, len, &ops);
-        } else {
-            ctx.skip();
+        if generic_too {
+            if ctx.peek_mine() {
+                let mut ops: Vec<Op> = idx.iter().map(|&i| alpha[i].clone()).collect();
+                ops.extend(epi.iter().cloned());
+                case::<Gen<Plain>>(ctx, "xgen", m, n, len, &ops);
+            } else {
+                ctx.skip();
+            }
         }
         // odometer
         let mut p = len;
@@ -339,15 +345,18 @@ fn main() {
         case::<Gen<String>>(&mut ctx, "gen_string", 1, 10, 6, &ops);
     }
 
-    // (1) exhaustive: 2 instances × 4 elements (36 operations), every history up to the bound
-    let l2 = if th { 5 } else { 4 };
-    for len in 0..=l2 {
-        exhaustive(&mut ctx, 2, 4, len);
+    // (1) exhaustive, both tiers: 2 instances × 4 elements, full alphabet (36 operations),
+    //     every history of length ≤ 4, both partition types
+    for len in 0..=4 {
+        exhaustive(&mut ctx, 2, 4, len, false, true);
     }
-    // (2) exhaustive: 1 instance × 4 elements (17 operations), longer histories
-    let l1 = if th { 6 } else { 5 };
-    for len in (l2 + 1)..=l1 {
-        exhaustive(&mut ctx, 1, 4, len);
+    if th {
+        // (2a) 2 instances × 4 elements, reduced alphabet (22 operations), length 5, both types
+        exhaustive(&mut ctx, 2, 4, 5, true, true);
+        // (2b) 1 instance × 4 elements, full alphabet (17 operations): length 5 both types,
+        //      length 6 on IntPartition
+        exhaustive(&mut ctx, 1, 4, 5, false, true);
+        exhaustive(&mut ctx, 1, 4, 6, false, false);
     }
 
     // (3) seeded random histories, all four types on the same history
